@@ -2,6 +2,34 @@ pub mod assembler;
 pub mod bit_value;
 pub mod parser;
 
+/// Subtraction of a field's bias that reports overflow of the data type instead of
+/// wrapping (or panicking with overflow checks), e.g. `i8` 127 - (-7).
+pub(crate) trait BiasSub: Sized {
+    fn bias_sub(self, bias: Self) -> Option<Self>;
+}
+macro_rules! impl_bias_sub_int {
+    ($($t:ty),*) => {
+        $(impl BiasSub for $t {
+            #[inline]
+            fn bias_sub(self, bias: Self) -> Option<Self> {
+                self.checked_sub(bias)
+            }
+        })*
+    };
+}
+macro_rules! impl_bias_sub_float {
+    ($($t:ty),*) => {
+        $(impl BiasSub for $t {
+            #[inline]
+            fn bias_sub(self, bias: Self) -> Option<Self> {
+                Some(self - bias)
+            }
+        })*
+    };
+}
+impl_bias_sub_int!(u8, u16, u32, u64, i8, i16, i32, i64);
+impl_bias_sub_float!(f32, f64);
+
 macro_rules! df {
     (
         id: $id:ident,
@@ -46,7 +74,10 @@ macro_rules! df {
                 let mut value = *value;
                 $(
                     if value >= $bias {
-                        value -= $bias;
+                        value = match $crate::df::BiasSub::bias_sub(value, $bias) {
+                            Some(v) => v,
+                            None => return Err(RtcmError::OutOfRange),
+                        };
                     } else {
                         return Err(RtcmError::OutOfRange);
                     }
